@@ -203,6 +203,25 @@ int main(int argc, char** argv) {
   for (std::uint64_t i = 0; i < cases; ++i) {
     vrng r(hash_combine(seed, i));
     scase c = generate_case(r, static_cast<int>(i % CFG_COUNT), gp, nullptr);
+    if (cfg_is_u64(c.cfg) && (i / CFG_COUNT) % 4 == 1) {
+      // completely full I256 (all 256 key bytes at one position; its 8-bit
+      // children count wraps to 0): the universes (<= --size keys) never reach
+      // it. 8-byte keys only, so prefix-freeness is not at stake. The history
+      // generated above follows; the destructor / clear() then walks the node.
+      const std::uint64_t h = hash_combine(hash_combine(seed, i), 0xF256);
+      const unsigned pos = static_cast<unsigned>((h >> 8) % 8);  // 0 = last byte
+      const std::uint64_t base = hash_combine(h, 1) & ~(0xFFULL << (8 * pos));
+      std::vector<op> pre(256);
+      for (unsigned b = 0; b < 256; ++b) {
+        // insertion order: ascending, descending or interleaved
+        const unsigned v = (h & 3) == 0 ? b : (h & 3) == 1 ? 255 - b : (b * 37) & 255;
+        pre[b].kind = INS;
+        pre[b].key = u64_to_be(base | (static_cast<std::uint64_t>(v) << (8 * pos)));
+        pre[b].vlen = static_cast<std::uint32_t>(h >> 20) % 5;
+        pre[b].vseed = static_cast<std::uint32_t>(h >> 32) + b;
+      }
+      c.ops.insert(c.ops.begin(), pre.begin(), pre.end());
+    }
     if (!emit.empty() && a.u64("emit-index", ~0ULL) == i) {
       write_file(emit, case_to_text(c));
       return 0;
